@@ -27,8 +27,7 @@ def instances(tier, seed):
     for pol in ("ILP", "TSG", "TSC", "Z3"):
         yield from EI.gen([pol], tier, seed, max_n=3 if th else 2,
                           variants=(0, 1, 3, 4) if th else (0, 1, 4),
-                          clusters=("c2", "c1c2", "c2|c1", "c2g1") if th
-                          else ("c2", "c1c2", "c2g1"),
+                          clusters=("c2", "c1c2", "c2|c1", "c2g1"),
                           progress=prog, deadlines=("loose",))
         if not th:
             yield from EI.gen([pol], tier, seed, shapes=("fork", "join", "indep3"),
